@@ -81,6 +81,18 @@ def rule_writer_wellformed(chk, prog):
                 continue
             done.add(f)
             chk.analysed(f)
+
+            def sends_itself(g, k):
+                """the finisher hands the header it was given to the stream itself, behind the checksum"""
+                g.build()
+                cc = [x for x in g.calls() if norm_callee(x.callee) == "tar_compute_checksum"] + \
+                     [x for x in g.calls() if x.callee and prog.fn(x.callee, g.unit) in finishers and prog.fn(x.callee, g.unit) is not g]
+                for x in g.calls():
+                    if slot_call(x) == ("struct.sqfs_ostream_t", "append") and len(x.ops) > 1:
+                        b = strip_casts(resolve_ptr(prog, x.ops[1], g.unit)[0])
+                        if b.is_arg and b.idx == k and cc and all(g.inst_dominates(y, x) for y in cc):
+                            return True
+                return False
             for (c, k) in cks:
                 n += 1
                 hdr = strip_casts(resolve_ptr(prog, c.ops[k], f.unit)[0])
@@ -108,7 +120,9 @@ def rule_writer_wellformed(chk, prog):
                 # the append of the header must follow
                 outs = [x for x in f.calls() if slot_call(x) == ("struct.sqfs_ostream_t", "append") and
                         strip_casts(resolve_ptr(prog, x.ops[1], f.unit)[0]) is hdr]
-                if not later and outs and all(f.inst_dominates(c, o) for o in outs):
+                callee = prog.fn(c.callee, f.unit)
+                if not later and ((outs and all(f.inst_dominates(c, o) for o in outs)) or
+                                  (not outs and callee is not None and sends_itself(callee, k))):
                     chk.ok("K11-tarhdr", inst, c, "the checksum is the last modification of the header before it is appended")
                 else:
                     chk.violation("K11-tarhdr", inst, (later or [c])[0], "the tar header is modified after its checksum was computed (or "
